@@ -345,7 +345,41 @@ def late_edit_programs():
         m.r = h.R(r=1)(p=sl, n=m.bus[0])
         return m
 
-    return [("late:ext_ports_grown", ext_ports_grown), ("late:ext_ports_shrunk", ext_ports_shrunk), ("late:signal_narrowed", signal_narrowed)]
+    def vis_changed(promote):
+        def mk():
+            tag = "P" if promote else "H"
+            leaf = h.Module(name=f"VisLeaf{tag}"); leaf.i = h.Input(); leaf.o = h.Output(width=2)
+            child = h.Module(name=f"VisChild{tag}")
+            child.a = h.Input(); child.z = h.Output(width=2); child.mid = h.Signal(width=2)
+            child.l0 = leaf(i=child.a, o=child.mid)
+            child.l1 = leaf(i=child.a, o=child.z)
+            if promote:
+                child.mid.vis = h.Visibility.PORT        # an internal node marked port-visible after it was added
+            else:
+                child.z.vis = h.Visibility.INTERNAL      # a port hidden after it was added
+            parent = h.Module(name=f"VisParent{tag}")
+            parent.a = h.Input(); parent.z = h.Output(width=2)
+            parent.c = child(a=parent.a, z=parent.z)
+            return parent
+        return mk
+
+    # names that are filed specially by from_proto: a module called like the namespaces' own `name` entry; a parent `Dac` over `Dac.Unit`
+    def called_name():
+        inner = h.Module(name="name"); inner.i = h.Input(width=2); inner.o = h.Output()
+        top = h.Module(name="NameTop"); top.i = h.Input(width=2); top.o = h.Output()
+        top.u = inner(i=top.i, o=top.o)
+        return top
+
+    def dotted_child():
+        unit = h.Module(name="Dac.Unit"); unit.i = h.Input(width=2); unit.o = h.Output()
+        dac = h.Module(name="Dac"); dac.i = h.Input(width=4); dac.o = h.Output(width=2)
+        dac.u0 = unit(i=dac.i[0:2], o=dac.o[0])
+        dac.u1 = unit(i=dac.i[2:4], o=dac.o[1])
+        return dac
+
+    return [("late:ext_ports_grown", ext_ports_grown), ("late:ext_ports_shrunk", ext_ports_shrunk), ("late:signal_narrowed", signal_narrowed),
+            ("late:vis_promoted", vis_changed(True)), ("late:vis_hidden", vis_changed(False)),
+            ("names:module_called_name", called_name), ("names:parent_over_dotted_child", dotted_child)]
 
 def run(ctx):
     rep = ctx.rep
